@@ -298,7 +298,7 @@ def fault_pipeline(work, rep, tier, seed, prop):
         for k_, op_ in enumerate(prog):
             if op_["kind"] != "update":
                 continue
-            for call in ("WriteOps", "GetLatest", "Set"):
+            for call in ("WriteOps", "GetLatest", "Set", "before"):       # ("before": the context had ended before the call was made)
                 steps = []
                 for j_, o2 in enumerate(prog):
                     st_ = {"op": "get", "log": o2["log"]} if o2["kind"] == "read" else {"op": "update", "log": o2["log"], "req": o2["req"]}
